@@ -39,6 +39,40 @@ def fault_scenarios(rng, thorough):
     return scns
 
 
+def spi_calls(lines):
+    """number of SPI calls (W/T/I/P units, expanded) in canonical trace lines"""
+    n = 0
+    for l in lines:
+        p = l.split()
+        cnt = int(p[-1][1:]) if p[-1].startswith("*") else 1
+        if p[0] in "WTIPF":
+            n += cnt
+    return n
+
+
+def failed_init_scenarios(tie, rng, thorough):
+    """identification that fails at every stage after CMD8 has answered, followed by further calls:
+    the next call must start identification again (data commands only after a COMPLETED sequence)"""
+    scns = []
+    n = 0
+    follow = ["r:1:0", "w:1:1:5", "nb", "r:2:0", "gt", "r:1:1"]
+    for kind in S.KINDS:
+        csd = S.csd_for(kind)
+        for crc in (0, 1):
+            scns.append(S.Scn("I%d" % n, crc, 50, follow[:2], kind=kind, csd=csd, memseed=2, tseed=n, tmax=(2, 2, 2, 2, 1), faults="stuck41", tag="init-never-ready")); n += 1
+            if kind != "V1SC":
+                for r1 in ("04", "01", "08", "7f"):
+                    scns.append(S.Scn("I%d" % n, crc, 50, follow, kind=kind, csd=csd, memseed=2, tseed=n, tmax=(2, 2, 2, 2, 1), faults="r58:" + r1, tag="init-cmd58-error")); n += 1
+            # SPI fault at every call index of the identification sequence (after CMD0 .. end of acquire)
+            base = S.Scn("IB%s%d" % (kind, crc), crc, 50, ["gt"], kind=kind, csd=csd, memseed=2, tseed=1000 + n, tmax=(2, 2, 2, 2, 2))
+            r0 = tie.run_impl([base])[base.id]
+            total = spi_calls(r0.trace())
+            idxs = range(total + 1) if thorough else sorted(set(list(range(0, total + 1, max(1, total // 12))) + [total - 1, total]))
+            for i in idxs:
+                scns.append(S.Scn("I%d" % n, crc, 50, follow, kind=kind, csd=csd, memseed=2, tseed=base.tseed, tmax=base.tmax, fails=str(i), tag="init-spi-fault")); n += 1
+    return scns
+
+
 def check(run, replay=None):
     tie = S.Tie(run, PROPFILE)
     if tie.impl is None:
@@ -47,14 +81,14 @@ def check(run, replay=None):
     thorough = run.tier == "thorough"
     legal = S.legal_scenarios(rng, thorough, "L")
     oor = oor_scenarios(rng, thorough)
-    flt = fault_scenarios(rng, thorough)
+    flt = fault_scenarios(rng, thorough) + failed_init_scenarios(tie, rng, thorough)
     allscn = legal + oor + flt
     ires = tie.run_impl(allscn)
     mres = tie.run_model(allscn, ires)
     diffs = tie.compare(allscn, ires, mres)
     byid = {s.id: s for s in allscn}
     # strict accept on legal-card runs (in range and out of range), lenient on the faulted ones
-    acc = tie.accept([(s.id, s.tag in ("rejected-multi-write", "rejected-write"), ires[s.id].trace()) for s in allscn if s.id in ires])
+    acc = tie.accept([(s.id, not s.legal, ires[s.id].trace()) for s in allscn if s.id in ires])
     cards = tie.card_replay(legal + oor, ires)
     bad = []
     for s in allscn:
